@@ -155,7 +155,7 @@ fn materialize(cfg: Cfg, p: &Program) -> (Vec<(String, String)>, String) {
         out.push((fill(n), fill(t)));
     }
     if matches!(cfg, Cfg::OnRenderComponent | Cfg::OffRenderComponent) {
-        let args: Vec<&str> = p.ctx.iter().map(|(k, _)| k.as_str()).collect();
+        let args: Vec<&str> = p.ctx.iter().map(|(k, _)| k.as_str()).chain(p.serde.iter().map(|(k, _)| k.as_str())).collect();
         out.push((
             format!("maincomp.{ext}"),
             format!("{{% component Main({}) %}}{leaf_text}{{% endcomponent Main %}}", args.join(", ")),
@@ -302,7 +302,7 @@ fn case_json(c: &Case, cfg: Cfg, b: &Built, p: &Program, out: &Out) -> serde_jso
         "registered": "Tera::default() + filters fecho_str (returns String), fecho_val (returns the Value), fecho_safe (is_safe) + functions echo_str, echo_val, echo_safe (is_safe), each returning its argument `v`",
         "templates": b.tpls.iter().map(|(n, t)| json!({"name": n, "source": t})).collect::<Vec<_>>(),
         "entry": entry,
-        "context": p.ctx.iter().map(|(k, v)| json!({"name": k, "value": v.describe()})).collect::<Vec<_>>(),
+        "context": p.ctx.iter().map(|(k, v)| json!({"name": k, "value": v.describe()})).chain(p.serde.iter().map(|(k, v)| json!({"name": k, "inserted_through_serde": format!("{v:?}")}))).collect::<Vec<_>>(),
         "expected_when_off": p.expected_off,
         "mark": format!("{:?}", p.keep),
         "as_is": p.as_is,
@@ -390,7 +390,10 @@ fn run_item(sp: &Space, item: u64, acc: &mut Acc) {
         }
         let c = Case { source, routes, sink, datum };
         let ctx_refs: Vec<(&str, &V)> = p.ctx.iter().map(|(k, v)| (k.as_str(), v)).collect();
-        let ctx = vals::context(&ctx_refs);
+        let mut ctx = vals::context(&ctx_refs);
+        for (k, v) in &p.serde {
+            ctx.insert(k.clone(), v);
+        }
         let expect = expectation(&p, datum);
         let key_text: String = p.tpls.iter().map(|(n, t)| format!("{n}\u{1}{t}\u{2}")).collect();
         let off = &p.expected_off;
